@@ -142,6 +142,81 @@ func runC16(c *an.Ctx) {
 		})
 	}
 
+	// the options handed to a directive start at their first character: the blanks separating them from the
+	// directive name are cut (one or several), otherwise `SecMarker  END` defines the marker " END" and a
+	// skipAfter:END silently runs to the end of the phase
+	if el := c.Fn("R1", "internal/seclang.(*Parser).evaluateLine"); el != nil {
+		nOpts := 0
+		an.Instrs(el, func(in ssa.Instruction) {
+			st, ok := in.(*ssa.Store)
+			if !ok {
+				return
+			}
+			fa, ok := st.Addr.(*ssa.FieldAddr)
+			if !ok || an.FieldVar(fa) == nil || an.FieldVar(fa).Name() != "Opts" {
+				return
+			}
+			nOpts++
+			trimmed := false
+			for d := range an.Deps(st.Val) {
+				if call, ok := d.(*ssa.Call); ok && call.Call.StaticCallee() != nil && call.Call.StaticCallee().Pkg != nil && call.Call.StaticCallee().Pkg.Pkg.Path() == "strings" {
+					switch call.Call.StaticCallee().Name() {
+					case "TrimLeft", "TrimSpace", "TrimLeftFunc", "Fields", "TrimFunc":
+						trimmed = true
+					case "Trim":
+						if len(call.Call.Args) == 2 && strings.Contains(an.Expr(call.Call.Args[1]), " ") {
+							trimmed = true
+						}
+					}
+				}
+			}
+			c.Check(trimmed, "R1", "directive options are cut free of the blanks after the directive name", st.Pos(), "leading blanks trimmed",
+				"the text after the first blank is handed to the directive as it is: a second blank between the name and its argument becomes part of the argument (SecMarker label, file names, values)")
+		})
+		c.MinCount("R1", "stores of the directive options in evaluateLine", nOpts, 1)
+	}
+
+	// names looked up in a case-folding registry (transformations) are case-insensitive wherever they are
+	// recognised: an action that treats one such name specially (t:none clears the list) must not compare its
+	// argument with the keyword case-sensitively, or t:None silently means "the identity transformation"
+	for _, fn := range c.P.ModFuncs {
+		if relPkg(fn) != "internal/actions" || fn.Name() != "Init" || len(fn.Params) < 3 {
+			continue
+		}
+		// only actions whose argument is handed to a folding registry lookup
+		folds := false
+		an.Instrs(fn, func(in ssa.Instruction) {
+			if cc := an.CallOf(in); cc != nil && cc.StaticCallee() != nil && cc.StaticCallee().Name() == "GetTransformation" {
+				folds = true
+			}
+		})
+		if !folds {
+			continue
+		}
+		data := ssa.Value(fn.Params[2])
+		n := 0
+		an.Instrs(fn, func(in ssa.Instruction) {
+			b, ok := in.(*ssa.BinOp)
+			if !ok || (b.Op != token.EQL && b.Op != token.NEQ) {
+				return
+			}
+			var cst ssa.Value
+			if b.X == data {
+				cst = b.Y
+			} else if b.Y == data {
+				cst = b.X
+			}
+			if _, isC := cst.(*ssa.Const); !isC || an.Expr(cst) == `""` {
+				return
+			}
+			n++
+			c.Bad("R1", fmt.Sprintf("%s: keyword test #%d on a registry name is case-insensitive", an.RelName(fn), n), in.Pos(), "the action argument is compared with "+an.Expr(cst)+" by ==, while the same argument is otherwise looked up in a registry that folds case: t:None / t:NONE are accepted but do not mean t:none")
+		})
+		if n == 0 {
+			c.Ok("R1", an.RelName(fn)+": keyword tests on a registry name are case-insensitive", fn.Pos(), "no case-sensitive comparison of the argument with a keyword")
+		}
+	}
+
 	// ---- R2 error discipline in the compile call graph
 	nCalls := 0
 	for _, fn := range c.P.ModFuncs {
